@@ -391,6 +391,14 @@ func c06Run(run *ev.Run) {
 		const chunk = int64(1 << 20)
 		nChunks := int((total + chunk - 1) / chunk)
 		var done int64
+		fast := newC06Fast()
+		var pairs [256][256]bool
+		for _, t := range []string{l.State, l.SID, l.Nonce} {
+			for i := 0; i+1 < len(t); i++ {
+				pairs[t[i]][t[i+1]] = true
+			}
+		}
+		run.Extra["full_seed_sweep_engine"] = map[bool]string{true: "LCG jump-ahead (cross-checked against math/rand)", false: "math/rand Seed (fast path unavailable)"}[fast.ok]
 		par.For(nChunks, run.Expired, func(ci int) {
 			src := mrand.NewSource(1)
 			r := mrand.New(src)
@@ -401,10 +409,17 @@ func c06Run(run *ev.Run) {
 				hi = total
 			}
 			for s := lo; s < hi; s++ {
-				src.Seed(s)
-				// cheap pre-filter: the first 160 draws must contain the first 3 characters of the state
-				st := c06Stream(r, 160, buf)
-				if strings.Contains(st, l.State) || strings.Contains(st, l.SID) {
+				var st string
+				if fast.ok && !fast.mayMatch(s, 160, &pairs) {
+					continue
+				}
+				if fast.ok && fast.stream(s, buf[:160]) {
+					st = string(buf[:160])
+				} else {
+					src.Seed(s)
+					st = c06Stream(r, 160, buf)
+				}
+				if strings.Contains(st, l.State) || strings.Contains(st, l.SID) || strings.Contains(st, l.Nonce) {
 					mu.Lock()
 					report(0, &c06Hit{Attack: "math/rand-full-seed-space", Target: "session-id", Detail: fmt.Sprintf("seed %d reproduces the issued values", s)})
 					mu.Unlock()
